@@ -434,12 +434,22 @@ func TestC17_Search(t *testing.T) {
 				for i := range want {
 					wc := want[i].Command
 					if f == "table" {
-						// the command cell: the command itself, or its first 45 bytes and "..." when longer than 48
-						if len(wc) > 48 {
-							wc = wc[:45] + "..."
-						}
+						// the command cell: the command itself, or a shortened form - a prefix of at least 10 bytes
+						// followed by "..." (45 bytes today; the column widths are layout, not part of the statement:
+						// hard-coding them was a false alarm against a tree with a wider column, DESIGN section 10)
 						row := got[i].Command
-						if !strings.HasPrefix(row, wc) || (len(row) > len(wc) && row[len(wc)] != ' ') {
+						ok := strings.HasPrefix(row, wc) && (len(row) == len(wc) || row[len(wc)] == ' ')
+						for from := 0; !ok; {
+							j := strings.Index(row[from:], "...")
+							if j < 0 {
+								break
+							}
+							if p := row[:from+j]; len(p) >= 10 && len(p) < len(wc) && strings.HasPrefix(wc, p) {
+								ok = true
+							}
+							from += j + 1
+						}
+						if !ok {
 							t.Fatalf("table row %d shows %q, engine rank %d is %q; %s", i, row, i, wc, ctx)
 						}
 						continue
@@ -514,7 +524,27 @@ func TestC17_Subcommands(t *testing.T) {
 			os.MkdirAll(filepath.Dir(h.Notebook()), 0o755)
 			os.WriteFile(h.Notebook(), []byte(rapid.SampledFrom([]string{"", "[]", "- command: x\n  description: y\n", "- [", "command: notalist", "\x00\x01"}).Draw(t, "nb")), 0o644)
 		case 2:
-			os.WriteFile(filepath.Join(h.Dir, ".bashrc"), []byte("# rc\n"), 0o644)
+			// shell start-up files as people really have them: comments, exports, alias lines in every
+			// shape the shell accepts (bare `alias ll`, `alias -p`, no value, blanks, tabs, a definition
+			// of the very name `wtf setup` is asked for), no final newline, CR LF, or not a file at all
+			rcLine := rapid.SampledFrom([]string{"# rc", "", "export A=1", "alias ll", "alias -p", "alias", "alias ", "alias\t", "alias =", "alias ll='ls -l'", "alias x y", "unalias hey", "  alias gs='git status' # x", "#alias hey='wtf'", "alias hey='/usr/bin/wtf'", "alias hey", "alias hey ", "alias hey=", "alias\they=x", "alias  hey=x", "aliashey=", "alias a=b alias", "alias alias", "alias ll\r", "\xff\xfe alias", "alias \u212a=k"})
+			for _, rc := range []string{".bashrc", ".zshrc"} {
+				switch rapid.IntRange(0, 7).Draw(t, "rc-kind-"+rc) {
+				case 0: // absent
+				case 1:
+					os.Mkdir(filepath.Join(h.Dir, rc), 0o755)
+				case 2:
+					os.Symlink("nowhere", filepath.Join(h.Dir, rc))
+				case 3:
+					os.WriteFile(filepath.Join(h.Dir, rc), nil, 0o644)
+				default:
+					body := strings.Join(rapid.SliceOfN(rcLine, 1, 6).Draw(t, "rc-lines-"+rc), "\n")
+					if rapid.Bool().Draw(t, "rc-final-newline-"+rc) {
+						body += "\n"
+					}
+					os.WriteFile(filepath.Join(h.Dir, rc), []byte(body), 0o644)
+				}
+			}
 		}
 		arg := func(label string) string {
 			s, _ := argvString(t, label)
@@ -538,6 +568,8 @@ func TestC17_Subcommands(t *testing.T) {
 			sub = rapid.SampledFrom([]string{"search", "search", "history", "history"}).Draw(t, "sub-reading-history")
 		case 1:
 			sub = rapid.SampledFrom([]string{"search", "save", "save-pipeline", "pipeline"}).Draw(t, "sub-reading-notebook")
+		case 2:
+			sub = rapid.SampledFrom([]string{"setup", "setup", "setup", "alias-add", "alias-list", "alias-remove"}).Draw(t, "sub-reading-rc-files")
 		}
 		var args []string
 		stdin := ""
